@@ -26,7 +26,8 @@ def stddev(simulations: np.array) -> np.array:
 def mc_stddev(simulations: np.array) -> np.array:
     if simulations.size == 0:
         return 0.0
-    return stddev(simulations) / np.sqrt(simulations.size)
+    # number of simulations, not number of entries: the payoff can be multidimensional
+    return stddev(simulations) / np.sqrt(simulations.shape[0])
 
 
 def skewness(simulations: np.array) -> np.array:
